@@ -280,7 +280,7 @@ def _parse_tlc_output(res, out):
 
 
 def run_tlc(spec, cfg, workdir, workers=None, simulate=None, depth=None, seed=None, timeout=600,
-            coverage=False, deadlock=None, extra=None, java_opts=None, dfs=False, heap=None):
+            coverage=False, deadlock=None, extra=None, java_opts=None, dfs=False, heap="8g"):
     """Runs TLC in a scratch copy of the spec's directory tree (spec root = VERIF/spec)."""
     res = TLCResult()
     specroot = os.path.join(VERIF, "spec")
